@@ -327,10 +327,7 @@ Proof.
   unfold extract_line_comment.
   replace (chomp_lf (foam_rule ++ [c_lf])) with (foam_rule, [c_lf]) by (vm_compute; reflexivity).
   replace (find_comment false [] foam_rule) with (Some (@nil N, foam_rule)) by (vm_compute; reflexivity).
-  cbv iota beta zeta. fold (lph (Z.to_N (counter_next c))).
-  rewrite replace_all_hit by discriminate.
-  generalize (lph (Z.to_N (counter_next c))) as p. intros p.
-  replace (replace_all foam_rule p [c_lf]) with [c_lf] by (vm_compute; reflexivity). reflexivity.
+  cbv iota beta zeta. fold (lph (Z.to_N (counter_next c))). reflexivity.
 Qed.
 
 Lemma lph_line_noinclude n : include_line_rest (lph n ++ [c_lf]) = None.
